@@ -323,6 +323,13 @@ def work(task):
                     fail(case, "stamp", x, o.x, "wrong-x-stamp")
                     bad = True
                     break
+                # the column declared for that position (told apart by its style name)
+                cs = TR.column_styles(t._Element__element)
+                exp_s = cs[x] if 0 <= x < len(cs) else None
+                if o.style != exp_s:
+                    fail(case, "column-at-x", exp_s, o.style, "wrong-column")
+                    bad = True
+                    break
             if expanded and o.repeated is not None:
                 fail(case, "expanded-has-repeat", None, o.repeated, "repeat-kept-on-expanded")
                 bad = True
